@@ -691,7 +691,7 @@ func TestC36(t *testing.T) {
 	r := vlib.Start(t, "C36")
 	defer r.Finish()
 	r.Extra("rule", "(a) generated workspaces with 2–5 rule-breaking mutations spread over 3–7 files; each is compiled once at parallelism 1 (baseline) and then by fresh executors + fresh sessions at parallelism 1/2/4/16 × repeats under pseudo-random Gosched/sleep at the incr.* hook sites; non-trivial = baseline has ≥ 2 diagnostics. "+
-		"(b) diagnostic lists of 2–6 entries (all permutations) and 7–8 entries (300 sampled permutations) built through the public report API from small pools so that entries tie on Canonicalize's sort keys (path, stage, start, end, tag, message) while differing in level/notes/help/debug/snippet text/secondary snippet/in-file, plus exact duplicates and entries without a primary span; non-trivial = at least two entries tie on all sort keys. distinct = distinct workspace content / distinct spec list")
+		"(b) diagnostic lists of 2–6 entries (all permutations) and 7–8 entries (300 sampled permutations) built through the public report API from small pools so that entries tie on Canonicalize's sort keys (path, stage, start, end, tag, message) while differing in level/notes/help/debug/snippet text/secondary snippet/in-file, plus exact duplicates and entries without a primary span; non-trivial = at least two entries tie on all sort keys. (c) the workspaces of (a), compiled per target list (single files, a pair, the workspace's targets; queries.IR per target) on ONE executor + session: every list twice in random order (sequential history), and all lists by concurrent Runs sharing a fresh executor, at parallelism 1/4/16 under the same perturbation; each run's diagnostics must equal those of a fresh executor + session at parallelism 1 for the same target list. distinct = distinct workspace content / distinct spec list")
 	r.Extra("assumptions", []string{
 		"two diagnostics are 'the same' iff all public accessors and the Report.ToProto export (annotations, edits, notes, help, debug) are equal; rendered text (without the debug footer) is compared in addition for compiler runs",
 		"raw addresses and the goroutine stack dump inside internal-compiler-error diagnostics are masked before comparing",
@@ -699,4 +699,5 @@ func TestC36(t *testing.T) {
 	})
 	c36Canon(r)
 	c36Runs(r)
+	c36Warm(r)
 }
